@@ -572,28 +572,14 @@ class BaseComponent(object, metaclass=abc.ABCMeta):
                     from_time = time
                 elif to_time == -1:
                     to_time = time
-                    if (
-                        state == BaseComponentState.NONE
-                        or state == BaseComponentState.FINISHED
-                    ):
-                        if previous_state == BaseComponentState.WORKING:
-                            working_time_list.append(
-                                (from_time, (to_time - 1) - from_time + finish_margin)
-                            )
-                        elif previous_state == BaseComponentState.READY:
-                            ready_time_list.append(
-                                (from_time, (to_time - 1) - from_time + finish_margin)
-                            )
-                    if state == BaseComponentState.READY:
-                        if previous_state == BaseComponentState.WORKING:
-                            working_time_list.append(
-                                (from_time, (to_time - 1) - from_time + finish_margin)
-                            )
-                    if state == BaseComponentState.WORKING:
-                        if previous_state == BaseComponentState.READY:
-                            ready_time_list.append(
-                                (from_time, (to_time - 1) - from_time + finish_margin)
-                            )
+                    if previous_state == BaseComponentState.WORKING:
+                        working_time_list.append(
+                            (from_time, (to_time - 1) - from_time + finish_margin)
+                        )
+                    elif previous_state == BaseComponentState.READY:
+                        ready_time_list.append(
+                            (from_time, (to_time - 1) - from_time + finish_margin)
+                        )
                     from_time = time
                     to_time = -1
             previous_state = state
